@@ -701,7 +701,11 @@ var c08ArgSets = [][]string{
 	{"-dot", "-nodecount=4"}, {"-dot", "-nodefraction=0", "-edgefraction=0", "-addresses"},
 	{"-top", "-sample_index=0", "-nodefraction=0"}, {"-tags", "-sample_index=0"}, {"-traces", "-lines"},
 	{"-peek=foo|main", "-lines"}, {"-callgrind", "-addresses"}, {"-top", "-mean"}, {"-dot", "-tagshow=k|bytes"},
+	{"-list=."},
 }
+
+// reports that would open a browser: written with -output=<file> and read back
+var c08FileArgSets = [][]string{{"-weblist=."}, {"-weblist=foo|main|bar"}}
 
 // call trees contain nodes with identical NodeInfo; kept apart (see known finding)
 var c08TreeArgSets = [][]string{{"-dot", "-call_tree", "-nodefraction=0", "-edgefraction=0"}, {"-callgrind", "-call_tree"}}
@@ -709,6 +713,7 @@ var c08TreeArgSets = [][]string{{"-dot", "-call_tree", "-nodefraction=0", "-edge
 type c08Job struct {
 	canon  string
 	more   []string
+	toFile bool // the command writes its report with -output=<file> (weblist would open a browser)
 	files  []string
 	args   []string
 	stream string
@@ -716,8 +721,12 @@ type c08Job struct {
 	codes  []int
 }
 
-func c08RunCLI(c *Ctx, tmp string, files []string, args []string) ([]byte, int) {
-	full := append(append(append([]string{}, args...), "-symbolize=none"), files...)
+func c08RunCLI(c *Ctx, tmp string, files []string, args []string, outFile string) ([]byte, int) {
+	full := append([]string{}, args...)
+	if outFile != "" {
+		full = append(full, "-output="+outFile)
+	}
+	full = append(append(full, "-symbolize=none"), files...)
 	cmd := exec.Command(c.Pprof, full...)
 	cmd.Env = []string{"HOME=" + tmp, "PPROF_TMPDIR=" + tmp, "PPROF_BINARY_PATH=" + tmp, "PATH=/nonexistent", "TZ=UTC"}
 	var out bytes.Buffer
@@ -730,26 +739,39 @@ func c08RunCLI(c *Ctx, tmp string, files []string, args []string) ([]byte, int) 
 			code = ee.ExitCode()
 		}
 	}
+	if outFile != "" {
+		b, _ := os.ReadFile(outFile)
+		os.Remove(outFile)
+		return append(out.Bytes(), b...), code
+	}
 	return out.Bytes(), code
 }
 
 func c08Workers() int { return 16 }
+
+func c08NeedsFile(args []string) bool {
+	return len(args) > 0 && strings.HasPrefix(args[0], "-weblist")
+}
 
 func c08RunJobs(c *Ctx, tmp string, jobs []*c08Job, runs int) {
 	var wg sync.WaitGroup
 	ch := make(chan *c08Job)
 	for w := 0; w < c08Workers(); w++ {
 		wg.Add(1)
-		go func() {
+		go func(w int) {
 			defer wg.Done()
 			for j := range ch {
 				for k := 0; k < runs; k++ {
-					o, code := c08RunCLI(c, tmp, j.files, j.args)
+					outFile := ""
+					if j.toFile {
+						outFile = filepath.Join(tmp, fmt.Sprintf("out-w%d.html", w))
+					}
+					o, code := c08RunCLI(c, tmp, j.files, j.args, outFile)
 					j.outs = append(j.outs, o)
 					j.codes = append(j.codes, code)
 				}
 			}
-		}()
+		}(w)
 	}
 	for _, j := range jobs {
 		ch <- j
@@ -980,6 +1002,11 @@ func c08CLI(c *Ctx, r *Rng, nprof, runs int) {
 			}
 			jobs = append(jobs, &c08Job{canon: canon, files: []string{fn}, args: a, stream: "plain"})
 		}
+		for k, a := range c08FileArgSets {
+			if (k+i)%2 == 0 {
+				jobs = append(jobs, &c08Job{canon: canon, files: []string{fn}, args: a, stream: "plain", toFile: true})
+			}
+		}
 		if prevFile != "" && prevTypes == len(p.SampleType) {
 			// two sources on one command line (fetched concurrently, merged in command-line order)
 			for _, a := range [][]string{{"-top"}, {"-tags"}, {"-proto"}} {
@@ -1039,7 +1066,7 @@ func c08ReplayCLI(c *Ctx, cs c08Case) {
 	// spread the runs over the workers: same job several times
 	var jobs []*c08Job
 	for k := 0; k < 8; k++ {
-		jobs = append(jobs, &c08Job{canon: cs.Profile, files: fns, args: cs.Args, stream: cs.Stream})
+		jobs = append(jobs, &c08Job{canon: cs.Profile, files: fns, args: cs.Args, stream: cs.Stream, toFile: c08NeedsFile(cs.Args)})
 	}
 	c08RunJobs(c, tmp, jobs, (runs+7)/8)
 	merged := &c08Job{canon: cs.Profile, more: cs.More, files: fns, args: cs.Args, stream: cs.Stream}
